@@ -37,15 +37,24 @@ def build(lens, gaps):
 
 
 def norm(v):
-    """normalise a real return value: None -> -1, numpy scalar -> int, array -> sorted list of ints"""
+    """a scalar-valued map: None -> -1, an exception -> -99, anything that is not one integer -> -98"""
     if v is None:
         return -1
     if isinstance(v, str):
         return -99
     a = np.asarray(v)
-    if a.ndim == 0:
-        return int(a)
-    return sorted(int(x) for x in a.ravel())
+    if a.size != 1:
+        return -98
+    return int(a.ravel()[0])
+
+
+def norms(v):
+    """a set-valued map: sorted list of ints; None -> [-1], an exception -> [-99]  (always a list: TLC compares like with like)"""
+    if v is None:
+        return [-1]
+    if isinstance(v, str):
+        return [-99]
+    return sorted(int(x) for x in np.asarray(v).ravel())
 
 
 def proj(v):
@@ -79,16 +88,16 @@ def record(cs, emd, cvl, sel, vectors=None):
     S = int((np.asarray(sv) > -1).sum())
     H = int(chv.max()) + 1 if len(chv) else 0
     r['s2c'] = [norm(call(cs.map_sample_to_cycle, cv, s)) for s in range(N)]
-    r['c2s'] = [norm(call(cs.map_cycle_to_samples, cv, c)) for c in range(K)]
+    r['c2s'] = [norms(call(cs.map_cycle_to_samples, cv, c)) for c in range(K)]
     r['c2sub'] = [norm(call(cs.map_cycle_to_subset, sv, c)) for c in range(K)]
-    r['sub2c'] = [norm(call(cs.map_subset_to_cycle, sv, j)) for j in range(S)]
-    r['sub2s'] = [norm(call(cs.map_subset_to_sample, sv, cv, j)) for j in range(S)]
+    r['sub2c'] = [norms(call(cs.map_subset_to_cycle, sv, j)) for j in range(S)]
+    r['sub2s'] = [norms(call(cs.map_subset_to_sample, sv, cv, j)) for j in range(S)]
     r['s2sub'] = [norm(call(cs.map_sample_to_subset, sv, cv, s)) for s in range(N)]
     r['sub2ch'] = [norm(call(cs.map_subset_to_chain, chv, j)) for j in range(S)]
-    r['ch2sub'] = [norm(call(cs.map_chain_to_subset, chv, h)) for h in range(H)]
+    r['ch2sub'] = [norms(call(cs.map_chain_to_subset, chv, h)) for h in range(H)]
     r['c2ch'] = [norm(call(cs.map_cycle_to_chain, chv, sv, c)) for c in range(K)]
-    r['ch2c'] = [norm(call(cs.map_chain_to_cycle, chv, sv, h)) for h in range(H)]
-    r['ch2s'] = [norm(call(cs.map_chain_to_samples, chv, sv, cv, h)) for h in range(H)]
+    r['ch2c'] = [norms(call(cs.map_chain_to_cycle, chv, sv, h)) for h in range(H)]
+    r['ch2s'] = [norms(call(cs.map_chain_to_samples, chv, sv, cv, h)) for h in range(H)]
     r['s2ch'] = [norm(call(cs.map_sample_to_chain, chv, sv, cv, s)) for s in range(N)]
     cvals = np.arange(K) + 1000.
     svals = np.arange(S) + 10.
